@@ -20,7 +20,7 @@ DESIGN_REF = "DESIGN.md 5 C13"
 RULE = (
     "case = (grid: 2 boxes / 2x2x1 / 2x2x2 boxes or a 2x2 / 3x3 mapped sketch, jitter level incl. one close to "
     "degenerate, clamp set: one or two movable vertices x clamp type {free, line with bounds, plane, radial, curve, "
-    "parametric surface}, optional translation / rotation / symmetry link, minimisation method of 4, 1..3 iterations, "
+    "parametric surface}, optional translation / rotation / symmetry link, minimisation method of 4, 1..3 iterations or the default stopping rule (default arguments, tolerance 0.5, 1e-3), "
     "frame, optimize() called once or twice on the same optimizer, clamps built from copies or from the vertices' own "
     "position arrays); the real optimizer is run with every optimize_clamp call wrapped to snapshot the point array; the "
     "reported quality is compared with a fresh grid over the final points. non-trivial "
@@ -89,6 +89,15 @@ def cases(tier, seed):
         for it in (1, 2, 3):
             out.append({"grid": "h211", "jitter": 2, "clamps": [[0, "curve_short"]], "link": None, "method": me, "iterations": it, "frame": 0})
             out.append({"grid": "h222", "jitter": 1, "clamps": [[0, "curve_short"]], "link": None, "method": me, "iterations": it, "frame": 4})
+    # the stopping rule: optimize() with its default arguments and with a coarse / fine tolerance (all other cases
+    # run a fixed number of iterations with tolerance 1e-12)
+    for ci, cl in enumerate(CLAMPS):
+        for dflt in ("all", 0.5, 1e-3):
+            out.append({"grid": "h222", "jitter": 1 + ci % 2, "clamps": [[0, cl]], "link": None, "method": "SLSQP", "iterations": 20, "frame": frames[ci % 2], "defaults": dflt})
+    for dflt in ("all", 0.5, 1e-3):
+        out.append({"grid": "h221", "jitter": 1, "clamps": [[0, "plane"]], "link": "translation", "method": "SLSQP", "iterations": 20, "frame": 0, "defaults": dflt, "runs": 2})
+        out.append({"grid": "h221", "jitter": 1, "clamps": [[0, "plane"], [1, "line"]], "link": None, "method": "SLSQP", "iterations": 20, "frame": 0, "defaults": dflt, "runs": 2})
+        out.append({"grid": "s33", "jitter": 1, "clamps": [[0, "plane"], [3, "plane"]], "link": None, "method": "SLSQP", "iterations": 20, "frame": 0, "defaults": dflt, "runs": 2})
     # optimize() called twice on one optimizer (every clamp type; links), invariants after each call
     for ci, cl in enumerate(CLAMPS):
         out.append({"grid": "h222", "jitter": 1, "clamps": [[0, cl]], "link": None, "method": METHODS[ci % 4], "iterations": 2, "frame": frames[ci % 2], "runs": 2})
@@ -478,10 +487,19 @@ def run_case(case):
         opt.optimize_clamp = wrapped
         try:
             with contextlib.redirect_stdout(io.StringIO()):  # the iteration table is printed whatever `report` says
-                opt.optimize(max_iterations=case["iterations"], tolerance=1e-12, method=case["method"])
+                if case.get("defaults"):
+                    # the call of the library's examples: optimize() with its own iteration limit / tolerance / method
+                    driver = opt.optimize() if case["defaults"] == "all" else opt.optimize(tolerance=case["defaults"])
+                    limit = 20
+                else:
+                    driver = opt.optimize(max_iterations=case["iterations"], tolerance=1e-12, method=case["method"])
+                    limit = case["iterations"]
         except Exception as err:
             bad("optimize-raised", f"{type(err).__name__}: {err}")
             return None
+        n_clamps = len(opt.grid.clamps)
+        if len(calls) > limit * n_clamps:
+            bad("iteration-limit-exceeded", f"{len(calls)} clamp steps for {n_clamps} clamps and a limit of {limit} iterations")
         q1 = float(grid.quality)
         final = grid.points
         if q1 > q0 * (1 + 1e-9) + 1e-12:
